@@ -133,6 +133,16 @@ func (versionStream) Generate(rng *rand.Rand, tier string, emit func(Case)) {
 			}
 		}
 	}
+	// present-but-empty annotation maps use no annotation feature
+	for _, where := range []int{-1, 0, 1} {
+		s := baseSpec(2)
+		if where < 0 {
+			s.Annotations = map[string]string{}
+		} else {
+			s.Devices[where].Annotations = map[string]string{}
+		}
+		emitSpec(s, true)
+	}
 	// a dot at every position of the class (the other character rule)
 	for _, kind := range []string{"vendor.com/.class", "vendor.com/cl.ass", "vendor.com/class.", "vendor.com/c.l.a", "vendor.com/.", "ven.dor/class", "vendor.com/cl-ass", "vendor.com/cl_ass"} {
 		s := baseSpec(2)
